@@ -48,6 +48,7 @@ func init() {
 			{ID: "R02d", Floor: 8, Doc: "framing readers return freshly allocated, fully read buffers and decode the CID from them (= R01b): a block cannot alias a reused buffer", Run: ruleR01b},
 			{ID: "R02e", Floor: 3, Doc: "single-byte adapters read with io.ReadFull: a Read may deliver its last byte together with io.EOF", Run: ruleR02e},
 			{ID: "R02b", Floor: 5, Doc: "EOF sanitisation: the error of a section-body read from the stream reaches a return only along the not-equal outcome of a comparison with io.EOF (or after being replaced/wrapped)", Run: ruleR02b},
+			{ID: "R02f", Floor: 2, Doc: "the CARv2 payload is read through a reader bounded by the real stream, not by what the header announces (= R14a)", Run: ruleR14a},
 		},
 	})
 }
